@@ -181,21 +181,40 @@ pub fn gen_ws_conn(r: &mut Rng, nonce: &mut u64, port: u16, allow_faults: bool, 
     r.shuffle(&mut tail);
     headers.extend(tail);
     let target = format!("/ws/id{}", my);
-    let head = build_request("GET", &target, &headers, b"", &BodyFraming::None);
     let valid = broken == 0;
+    // One valid handshake in six also carries a (pointless but legal) request
+    // body: a few bytes with Content-Length, or one chunk and the last-chunk
+    // marker.  The upgrade must go through all the same and the body is not
+    // part of what the channel handler reads.  (Bodies that hyper needs three
+    // or more decode steps for are not generated: hyper itself then leaks
+    // undrained body bytes into the upgraded stream.)
+    let with_body = valid && r.chance(1, 6);
+    if with_body {
+        // (the handshake then reaches the server in one piece)
+        c.c2s = crate::net::WirePolicy::whole();
+    }
+    let head = if with_body {
+        let n = r.usize_in(1, 40);
+        let body = r.bytes(n);
+        let fr = if r.chance(1, 2) { BodyFraming::Length } else { BodyFraming::Chunked { sizes: vec![], ext: false, trailer: false } };
+        build_request("GET", &target, &headers, &body, &fr)
+    } else {
+        build_request("GET", &target, &headers, b"", &BodyFraming::None)
+    };
     if valid {
         let plen = *r.pick(&[0usize, 1, 7, 100, 1000, 5000, 16384]);
         let plen = if plen > 7 { r.usize_in(0, plen) } else { plen };
         // a handler reading fixed-size blocks is sent whole blocks
         let plen = if block_mode { plen - plen % crate::api::ws::BLOCK } else { plen };
         let payload = r.bytes(plen);
-        let early = if !greet_first && r.chance(1, 4) { r.usize_in(0, plen) } else { 0 };
+        let early = if !greet_first && !with_body && r.chance(1, 4) { r.usize_in(0, plen) } else { 0 };
         let mut first = head.clone();
         first.extend_from_slice(&payload[..early]);
         c.steps.push(Step::Send { data: Blob(first), completes: Some(0) });
         if early == 0 || r.chance(1, 2) {
             c.steps.push(Step::AwaitResponses { count: 1, max_ms: 30_000 });
         }
+        let _ = with_body;
         if greet_first {
             c.steps.push(Step::AwaitRaw { n: glen as u64, max_ms: 60_000 });
         }
